@@ -54,9 +54,7 @@ func ParseArchitectures(arch string) ([]Arch, error) {
 }
 
 func (arch *Arch) UnmarshalControl(data string) error {
-	/* A folded field ("Architecture:\n linux-any") arrives with the newline
-	 * the reader puts behind a continuation line. */
-	return parseArchInto(arch, strings.Trim(data, " \t\r\n"))
+	return parseArchInto(arch, data)
 }
 
 func ParseArch(arch string) (*Arch, error) {
@@ -79,6 +77,13 @@ func parseArchInto(ret *Arch, arch string) error {
 	 * kfreebsd-any (implicitly any-kfreebsd-any)
 	 * kfreebsd-amd64 (implicitly any-kfreebsd-any)
 	 * bsd-openbsd-i386 */
+	/* A folded field ("Architecture:\n linux-any") arrives with the newline
+	 * the reader puts behind a continuation line: blanks around the name
+	 * are not part of it, and there are none inside. */
+	arch = strings.Trim(arch, " \t\r\n")
+	if strings.ContainsAny(arch, " \t\r\n") {
+		return fmt.Errorf("Architecture '%s' contains white space", arch)
+	}
 	flavors := strings.SplitN(arch, "-", 3)
 	for _, flavor := range flavors {
 		if flavor == "" {
